@@ -1449,14 +1449,14 @@ Definition ex_calls : list call :=
   [ NewChange ex_latin1;
     WritePreamble (WStr (ascii_text (B "hello"))) WNone None WNone WNone;
     NewFile WNone;                                   (* inherits latin-1 from its change *)
+    NewFile ex_utf8;                                 (* rejected (a file must start with its metadata): no effect *)
     WriteMeta (WDict (JObj [(ascii_text (B "k"), JStr (ascii_text (B "v")))])) WNone None;
-    NewFile ex_latin1;                               (* rejected: a file's metadata has not been followed by a diff *)
     WriteDiff (WBytes (B "--- a")) WNone WNone WNone;
     NewChange WNone ].                               (* sibling change: back to main's utf-8 *)
 
 Example ex_writer_run :
   exists s0, writer_init ex_utf8 (WStr (ascii_text (B "1.0"))) = (s0, Ok tt) /\
-    map fst (fst (run_calls s0 ex_calls)) = [Ok tt; Ok tt; Ok tt; Ok tt; Err ELibOrder; Ok tt; Ok tt] /\
+    map fst (fst (run_calls s0 ex_calls)) = [Ok tt; Ok tt; Ok tt; Err ELibOrder; Ok tt; Ok tt; Ok tt] /\
     ok_history ex_calls (fst (run_calls s0 ex_calls)) = [TChange (Some ex_latin1); TFile None; TChange None] /\
     cur_encoding (snd (run_calls s0 ex_calls)) = Ok ex_utf8 /\
     cur_encoding (snd (run_calls s0 (firstn 3 ex_calls))) = Ok ex_latin1.
